@@ -61,6 +61,7 @@ type Op struct {
 	Add      []Coin `json:"add,omitempty"`
 	Rpb      []Coin `json:"rpb,omitempty"`
 	N        int    `json:"n,omitempty"` // next: number of blocks; toend: offset added to the end height
+	Smart    bool   `json:"smart,omitempty"` // retarget at execution: a farmer who has stake / a pool that is running
 }
 type History struct{ Steps []Op }
 
@@ -131,15 +132,15 @@ func gen(r *lib.Rand, tier, stream string, i int) History {
 	for k := 0; k < n; k++ {
 		switch r.Weighted(30, 18, 14, 26, 6, 1, 2, 3, 3) {
 		case 0:
-			h.Steps = append(h.Steps, Op{K: "stake", Who: farmer(), Pid: pid(), D: -1, Amt: smallOrBig(r, 20).String()})
+			h.Steps = append(h.Steps, Op{K: "stake", Who: farmer(), Pid: pid(), D: -1, Amt: smallOrBig(r, 20).String(), Smart: r.Chance(9, 10)})
 		case 1:
 			amt := []string{"all", "all", "all", "half", "half", "1", "over"}[r.Intn(7)]
 			if r.Chance(1, 6) {
 				amt = smallOrBig(r, 6).String()
 			}
-			h.Steps = append(h.Steps, Op{K: "unstake", Who: farmer(), Pid: pid(), D: -1, Amt: amt})
+			h.Steps = append(h.Steps, Op{K: "unstake", Who: farmer(), Pid: pid(), D: -1, Amt: amt, Smart: r.Chance(9, 10)})
 		case 2:
-			h.Steps = append(h.Steps, Op{K: "harvest", Who: farmer(), Pid: pid()})
+			h.Steps = append(h.Steps, Op{K: "harvest", Who: farmer(), Pid: pid(), Smart: r.Chance(9, 10)})
 		case 3:
 			nb := 1
 			if r.Chance(1, 4) {
@@ -147,9 +148,10 @@ func gen(r *lib.Rand, tier, stream string, i int) History {
 			}
 			h.Steps = append(h.Steps, Op{K: "next", N: nb})
 		case 4: // adjust by the creator: top-up and / or per-block change
-			op := Op{K: "adjust", Who: 0, Pid: pid()}
+			op := Op{K: "adjust", Who: 0, Pid: pid(), Smart: true}
 			if r.Chance(1, 12) {
 				op.Who = farmer()
+				op.Smart = false
 			}
 			mode := r.Weighted(4, 3, 3)
 			pick := func() []int { // denominations: resolved against the pool at execution ("-1" = first rule, "-2" = second, "-3" = all)
@@ -167,9 +169,10 @@ func gen(r *lib.Rand, tier, stream string, i int) History {
 			}
 			h.Steps = append(h.Steps, op)
 		case 5:
-			op := Op{K: "destroy", Who: 0, Pid: pid()}
+			op := Op{K: "destroy", Who: 0, Pid: pid(), Smart: true}
 			if r.Chance(1, 5) {
 				op.Who = farmer()
+				op.Smart = false
 			}
 			h.Steps = append(h.Steps, op)
 		case 6:
@@ -467,8 +470,58 @@ func coinListTerm(cs []Coin) string {
 }
 
 // resolve turns a symbolic operation into concrete steps against the observed state
+// retarget a smart operation against the observed state: a farmer who has stake (unstake, harvest),
+// a pool that is running (stake), a running editable pool and its creator (adjust, destroy)
+func retarget(op Op, s snapshot, h int64) Op {
+	if !op.Smart || len(s.Pools) == 0 {
+		return op
+	}
+	running := func(p *poolObs) bool { return p.InQueue && p.Start <= h && h <= p.End }
+	n := len(s.Pools)
+	start := 0
+	for i := range s.Pools {
+		if s.Pools[i].ID == op.Pid {
+			start = i
+		}
+	}
+	switch op.K {
+	case "unstake", "harvest":
+		for i := 0; i < n; i++ {
+			p := &s.Pools[(start+i)%n]
+			if op.K == "harvest" && !running(p) {
+				continue
+			}
+			for j := 0; j < nActors; j++ {
+				w := (op.Who + j) % nActors
+				if f, ok := p.Farmers[w]; ok && f.Locked.Sign() > 0 {
+					op.Who, op.Pid = w, p.ID
+					return op
+				}
+			}
+		}
+	case "stake":
+		for i := 0; i < n; i++ {
+			p := &s.Pools[(start+i)%n]
+			if running(p) {
+				op.Pid = p.ID
+				return op
+			}
+		}
+	case "adjust", "destroy":
+		for i := 0; i < n; i++ {
+			p := &s.Pools[(start+i)%n]
+			if p.InQueue && h <= p.End && p.Editable && p.Creator >= 0 {
+				op.Pid, op.Who = p.ID, p.Creator
+				return op
+			}
+		}
+	}
+	return op
+}
+
 func (v *env) resolve(op Op, s snapshot) []concrete {
 	h := v.e.Height
+	op = retarget(op, s, h)
 	pidStr := fmt.Sprintf("farm-%d", op.Pid)
 	p := s.pool(op.Pid)
 	lpt := op.D
